@@ -116,7 +116,15 @@ func oracle(c *Case) (int, error) {
 		return 0, fmt.Errorf("INFRA: %v", err)
 	}
 	answered := 0
+	fdStart, floods := -1, 0
+	if srv.Cmd != nil && srv.Cmd.Process != nil {
+		fdStart = fix.FDCount(srv.Cmd.Process.Pid)
+	}
+	defer func() { _ = floods }()
 	for i, r := range c.Reqs {
+		if r.Kind == "error-flood" {
+			floods++
+		}
 		var req pb.QueryRequest
 		if err := proto.Unmarshal(r.Wire, &req); err != nil {
 			continue // not decodable from the wire: outside the property
@@ -148,6 +156,14 @@ func oracle(c *Case) (int, error) {
 		}
 		if err := doProbe(label); err != nil {
 			return answered, err
+		}
+	}
+	if floods >= 100 && fdStart >= 0 && srv.Alive() {
+		// hundreds of refused requests later the server must not hold more
+		// descriptors than a handful above what it started with
+		time.Sleep(100 * time.Millisecond)
+		if fdEnd := fix.FDCount(srv.Cmd.Process.Pid); fdEnd > fdStart+16 {
+			return answered, fmt.Errorf("after %d refused requests the server holds %d open descriptors, %d at the start: refused requests do not give back what they take", floods, fdEnd, fdStart)
 		}
 	}
 	return answered, nil
